@@ -85,6 +85,12 @@ def gen(tier, rng):
             for client in "sa":
                 cases.append(case(client, mode, cert, "2000", True, "ok"))
                 cases.append(case(client, mode, cert, "2100", True, "ok"))
+    # transports built with `.timeout(None)` (upper-case client letter): the policy does not depend on a timeout being set
+    for mode in "norw":
+        for cert in "gwse":
+            for client in "SA":
+                for creds in (True, False):
+                    cases.append(case(client, mode, cert, "1000", creds, "ok"))
     # the convenience constructors and connection URLs: which TLS mode and port they configure
     for host in ("mail.example.org", "h.example", "127.0.0.1"):
         cases.append(f"ctor\trelay\t{hexs(host)}")
